@@ -283,6 +283,23 @@ def make_value(spec, ent, ws, loc, attr):
         return not bool(cur)
     if k == "wsname":
         return ws.name
+    if k == "typed":
+        t = spec["t"]
+        if t == "none":
+            return None
+        if t == "int":
+            return int(spec["v"])
+        if t == "float":
+            return float(spec["v"])
+        if t == "npint64":
+            return np.int64(spec["v"])
+        if t == "npint32":
+            return np.int32(spec["v"])
+        if t == "npfloat32":
+            return np.float32(spec["v"])
+        if t == "str":
+            return str(spec["v"])
+        raise NotImplementedError(t)
     if k == "inplace":
         # the common idiom  v = obj.attr; v[...] = x; obj.attr = v  : the very object the getter hands out, edited in place
         v = getattr(ent, attr)
@@ -517,6 +534,76 @@ def raw_matches(live, raw):
     return None
 
 
+def _node(f, cls_kind, loc):
+    base = f[list(f)[0]]
+    if loc["how"] == "workspace":
+        return base
+    if loc["how"] == "root":
+        return base["Root"]
+    if loc["how"] == "uid":
+        return base[{"object": "Objects", "group": "Groups", "concatenator": "Groups", "data": "Data"}[cls_kind]]["{" + loc["uid"] + "}"]
+    if loc["how"] == "type_of":
+        for sec in ("Objects", "Groups", "Data"):
+            if "{" + loc["uid"] + "}" in base[sec]:
+                return base[sec]["{" + loc["uid"] + "}"]["Type"]
+    if loc["how"] in ("valuemap", "colormap"):
+        return base["Data"]["{" + loc["uid"] + "}"]["Type"]
+    return None
+
+
+def raw_kinds(path, cls_kind, loc, amap):
+    """HDF5 storage class of every scalar attribute of the node (+ presence of the dict/map datasets)"""
+    import h5py
+
+    from contextlib import nullcontext
+
+    out = {"attrs": {}, "datasets": []}
+    try:
+        with (nullcontext(path) if isinstance(path, h5py.File) else h5py.File(path, "r")) as f:
+            node = _node(f, cls_kind, loc)
+            if node is None:
+                return out
+            for key, attr in amap.items():
+                if key in node.attrs:
+                    dt = node.attrs.get_id(key).dtype
+                    k = dt.kind
+                    out["attrs"][attr] = ("HInt8" if dt == "int8" else "HInt64" if k in "iu" else "HFloat64" if k == "f"
+                                          else "HStr" if k in "OSU" else "HNative")
+            out["datasets"] = [n for n in ("Value map", "Color map", "Metadata", "options") if n in node]
+    except Exception as e:  # noqa: BLE001
+        out["error"] = f"{type(e).__name__}: {e}"
+    return out
+
+
+def value_tag(v):
+    """the Python/numpy scalar class of a live attribute value, as H5Writer.write_attributes will see it"""
+    import math
+    import zlib
+
+    import numpy as np
+
+    if v is None:
+        return {"tag": "None"}
+    if isinstance(v, bool):
+        return {"tag": "TBool", "z": int(v), "frac": False}
+    if isinstance(v, np.bool_):
+        return {"tag": "TNpBool", "z": int(v), "frac": False}
+    if isinstance(v, np.int8):
+        return {"tag": "TNpInt8", "z": int(v), "frac": False}
+    if isinstance(v, np.integer):
+        return {"tag": "TNpInt", "z": int(v), "frac": False}
+    if isinstance(v, int):
+        return {"tag": "TInt", "z": v, "frac": False}
+    if isinstance(v, (float, np.floating)):
+        if not math.isfinite(float(v)):
+            return {"tag": "TOther"}
+        return {"tag": "TNpFloat" if isinstance(v, np.floating) and not isinstance(v, float) else "TFloat",
+                "z": math.floor(float(v)), "frac": not float(v).is_integer()}
+    if isinstance(v, str):
+        return {"tag": "TStr", "txt": zlib.crc32(v.encode()) + 1}
+    return {"tag": "TOther", "why": type(v).__name__}
+
+
 # ----------------------------------------------------------------------------- driver
 def drive(case, work):
     import warnings
@@ -537,9 +624,13 @@ def drive(case, work):
             ent = find(ws, loc)
             obs["class_at_runtime"] = type(ent).__name__
             s0 = snapshot(ent, snap)
+        todo = list(case["steps"])
         with Workspace(path) as ws:
             ent = find(ws, loc)
-            for st in case["steps"]:
+            for k, st in enumerate(todo):
+                if case.get("typed") and k == len(todo) - 1:
+                    # typed sequences: how the attribute is stored right before the last assignment (same session)
+                    obs["raw_before"] = raw_kinds(ws.geoh5, case["kind"], loc, case.get("amap", {}))
                 rec = {"attr": st["attr"], "raised": False}
                 try:
                     val = make_value(st["val"], ent, ws, loc, st["attr"])
@@ -558,6 +649,11 @@ def drive(case, work):
                     rec["err"] = f"{type(e).__name__}: {e}"[:200]
                 obs["steps"].append(rec)
             s1 = snapshot(ent, snap)
+            if case.get("typed"):
+                try:
+                    obs["live_tag"] = value_tag(getattr(ent, case["steps"][-1]["attr"]))
+                except Exception as e:  # noqa: BLE001
+                    obs["live_tag"] = {"tag": "TOther", "why": type(e).__name__}
         try:
             with Workspace(path, mode="r") as ws:
                 ent = find(ws, loc)
@@ -566,6 +662,8 @@ def drive(case, work):
             obs["reopen_failed"] = f"{type(e).__name__}: {e}"[:200]
             s2 = {a: {"unreadable": True} for a in snap}
         raw = raw_scalars(path, case["kind"], loc, case.get("amap", {}))
+        if case.get("typed"):
+            obs["raw_after"] = raw_kinds(path, case["kind"], loc, case.get("amap", {}))
     finally:
         if os.path.exists(path):
             os.remove(path)
